@@ -27,7 +27,11 @@ func main() {
 	keep := fs.String("keep", "", "keep query files in this dir")
 	prop := fs.String("prop", "", "property id")
 	tier := fs.String("tier", "quick", "quick|thorough")
+	out := fs.String("outdir", "/verif", "where evidence/ and replay/ are written")
+	noReplay := fs.Bool("noreplay", false, "do not run replay tests")
 	fs.Parse(os.Args[2:])
+	outDir = *out
+	skipReplay = *noReplay
 	if cmd == "selfcheck" {
 		os.Exit(selfcheck())
 	}
@@ -75,6 +79,10 @@ func main() {
 			}
 		}
 		os.Exit(code)
+	case "keys":
+		for _, a := range fs.Args() {
+			debugKeys(p, a)
+		}
 	case "list":
 		var keys []string
 		for k := range p.specs.Contracts {
@@ -219,3 +227,17 @@ func selfcheck() int {
 	}
 	return 0
 }
+
+func init() {
+	debugKeys = func(p *Prog, sub string) {
+		for k := range p.funcs {
+			if strings.Contains(k, sub) {
+				fmt.Println(k)
+			}
+		}
+	}
+}
+
+var debugKeys func(p *Prog, sub string)
+
+var skipReplay bool
